@@ -139,10 +139,16 @@ def build_race_harness():
     hdir = os.path.join(BUILD, "harness") if ALT else os.path.join(ROOT, "harness")
     exe = os.path.join(BUILD, "implrun-race")
     env = dict(GOENV, CGO_ENABLED="1")
-    rc, out = sh(["go", "build", "-race", "-tags", "verif", "-o", exe, "./cmd/implrun"], cwd=hdir, env=env, timeout=1800)
+    rc, out = sh(["go", "build", "-race", "-tags", harness_tags(), "-o", exe, "./cmd/implrun"], cwd=hdir, env=env, timeout=1800)
     if rc != 0:
         raise Infra("the race-detector build of the harness failed:\n" + out[-3000:])
     return exe
+
+
+def harness_tags():
+    """verif, plus armorhook where /repo carries the verif-tagged hook file the harness op armorok goes through (a tree from
+    before that commit builds without the op)"""
+    return "verif,armorhook" if os.path.exists(os.path.join(REPO, "control", "verif_hooks.go")) else "verif"
 
 
 def build_harness_386():
@@ -151,7 +157,7 @@ def build_harness_386():
     hdir = os.path.join(BUILD, "harness") if ALT else os.path.join(ROOT, "harness")
     exe = os.path.join(BUILD, "implrun386")
     env = dict(GOENV, GOARCH="386", CGO_ENABLED="0")
-    rc, out = sh(["go", "build", "-tags", "verif", "-o", exe, "./cmd/implrun"], cwd=hdir, env=env, timeout=900)
+    rc, out = sh(["go", "build", "-tags", harness_tags(), "-o", exe, "./cmd/implrun"], cwd=hdir, env=env, timeout=900)
     if rc != 0:
         return None
     try:
@@ -215,10 +221,10 @@ def build_harness():
     sh(["cp", os.path.join(REPO, "go.sum"), os.path.join(hdir, "go.sum")])
     os.makedirs(BUILD, exist_ok=True)
     exe = os.path.join(BUILD, "implrun")
-    rc, out = sh(["go", "build", "-tags", "verif", "-o", exe, "./cmd/implrun"], cwd=hdir, env=GOENV, timeout=900)
+    rc, out = sh(["go", "build", "-tags", harness_tags(), "-o", exe, "./cmd/implrun"], cwd=hdir, env=GOENV, timeout=900)
     if rc != 0:
         raise Infra("the Go harness does not build against %s:\n%s" % (REPO, out[-3000:]))
-    rc, out = sh(["go", "build", "-tags", "verif", "-o", os.path.join(BUILD, "schemadump"), "./cmd/schemadump"], cwd=hdir, env=GOENV, timeout=900)
+    rc, out = sh(["go", "build", "-tags", harness_tags(), "-o", os.path.join(BUILD, "schemadump"), "./cmd/schemadump"], cwd=hdir, env=GOENV, timeout=900)
     if rc != 0:
         raise Infra("schemadump does not build against %s:\n%s" % (REPO, out[-3000:]))
     return exe
